@@ -657,6 +657,28 @@ def fault_kinds(sj, u):
         F("handler-assign-read-only", [qml.B(on, "{ tgt.width = 1 }")], roots=[on])
         F("handler-unsupported-statement", [qml.B(on, "{ for (;;) {} }")], roots=[on])
         F("handler-duplicate", [qml.B(on, 'tgt.text = "a"'), qml.B(on, 'tgt.text = "b"')], roots=[on])
+    # a signal the type information overloads by argument *type* (neither list is a prefix of the other) cannot be
+    # connected by name: a handler on it is unsupported, on every class that has one
+    nearest = {}
+    for c_ in [sj.cls] + list(qtmock.ancestors(sj.cls, types())):
+        here = {}
+        for e in types().get(c_, {}).get("signals", []):
+            here.setdefault(e["name"], []).append(e)
+        for n_, es in here.items():
+            nearest.setdefault(n_, es)          # the nearest class that declares the name hides the others
+    for name, own in sorted(nearest.items()):
+        lists = [[a["type"] for a in e.get("arguments", [])] for e in own]
+        if any(not (x[:len(y)] == y or y[:len(x)] == x) for x in lists for y in lists):
+            on = "on" + name[0].upper() + name[1:]
+            F("handler-on-signal-overloaded-by-type", [qml.B(on, 'tgt.text = "x"')], roots=[on])
+            break
+    if sj.cls == "QGridLayout":
+        # a count of cells per line that is not a positive number has no effect the form could carry: diagnosed, for the
+        # axis the flow wraps at and for the other one
+        for cname, val in (("columns", "0"), ("rows", "0"), ("columns", "-1"), ("rows", "-1")):
+            F(f"grid-{cname}-{'zero' if val == '0' else 'negative'}", [qml.B(cname, val)], roots=[cname])
+            F(f"grid-{cname}-{'zero' if val == '0' else 'negative'}-top-to-bottom", [qml.B("flow", "QGridLayout.TopToBottom"), qml.B(cname, val)],
+              faulty=None, roots=["flow", cname])
     if sj.host in ("plain", "page", "root"):
         F("layout-attached-outside-layout", [qml.B("QLayout.row", "1")], roots=["QLayout.row"])
     if sj.host in ("plain", "layout-child") and sj.is_widget:
